@@ -1,7 +1,7 @@
 #!/usr/bin/env python3
 """Translate the ```pest block of /repo/README.md (the published CommonNarsese grammar) into a Lean PEG AST.
 
-usage: gen_grammar.py <README.md> <out_dir>     → <out_dir>/ReadmeGrammar.lean
+usage: gen_grammar.py <README.md> <out_dir> [<README.en.md>]     → <out_dir>/ReadmeGrammar.lean
 The Unicode classes the grammar names (PUNCTUATION|SYMBOL, LETTER|NUMBER, WHITE_SPACE, ASCII_DIGIT) are
 emitted as range tables computed with python's unicodedata.
 """
@@ -142,6 +142,7 @@ WS = [0x9, 0xA, 0xB, 0xC, 0xD, 0x20, 0x85, 0xA0, 0x1680] + list(range(0x2000, 0x
 
 def main():
     readme, out_dir = sys.argv[1], sys.argv[2]
+    readme_en = sys.argv[3] if len(sys.argv) > 3 else None
     rules = P(tokenize(extract(readme))).rules()
     names = {r[0] for r in rules}
     o = ["/- GENERATED by tools/gen_grammar.py from the ```pest block of README.md. DO NOT EDIT. -/",
@@ -150,6 +151,19 @@ def main():
     o.append("def readmeRules : List Peg.Rule := [")
     o.append(",\n".join("  { name := \"%s\", mod := .%s, body := %s }" % (n, m, lean(b, names)) for n, m, b in rules))
     o.append("]")
+    # the English README publishes the same grammar: translated separately, compared in Props/C11c.lean
+    en_rules, en_err = [], ""
+    if readme_en is not None:
+        try:
+            en_rules = P(tokenize(extract(readme_en))).rules()
+        except SystemExit as e:
+            en_rules, en_err = [], str(e)
+    en_names = {r[0] for r in en_rules}
+    o.append("/-- the ```pest block of README.en.md (empty when it is not a well-formed pest grammar) -/")
+    o.append("def readmeRulesEn : List Peg.Rule := [")
+    o.append(",\n".join("  { name := \"%s\", mod := .%s, body := %s }" % (n, m, lean(b, en_names)) for n, m, b in en_rules))
+    o.append("]")
+    o.append("def readmeEnError : String := %s" % ('"' + en_err.replace("\\", "\\\\").replace('"', '\\"') + '"'))
     cat = unicodedata.category
     o.append("def clsPunctSym : List (Nat × Nat) := " + ranges(lambda c: cat(c)[0] in "PS"))
     o.append("def clsLetterNum : List (Nat × Nat) := " + ranges(lambda c: cat(c)[0] in "LN"))
@@ -159,10 +173,17 @@ def main():
     o.append("def clsSymbol : List (Nat × Nat) := " + ranges(lambda c: cat(c)[0] == "S"))
     o.append("def clsWhite : List (Nat × Nat) := " + ranges(lambda c: ord(c) in WS))
     o.append("")
+    o.append("def readmeClasses : List (String × List (Nat × Nat)) :=")
+    o.append("  [(\"LETTER\", clsLetter), (\"NUMBER\", clsNumber), (\"PUNCTUATION\", clsPunct), (\"SYMBOL\", clsSymbol),")
+    o.append("   (\"WHITE_SPACE\", clsWhite), (\"ASCII_DIGIT\", [(48, 57)]), (\"ANY\", [(0, 1114111)])]")
+    o.append("")
     o.append("def readmeGrammar : Peg.Grammar where")
     o.append("  rules := readmeRules")
-    o.append("  classes := [(\"LETTER\", clsLetter), (\"NUMBER\", clsNumber), (\"PUNCTUATION\", clsPunct), (\"SYMBOL\", clsSymbol),")
-    o.append("              (\"WHITE_SPACE\", clsWhite), (\"ASCII_DIGIT\", [(48, 57)]), (\"ANY\", [(0, 1114111)])]")
+    o.append("  classes := readmeClasses")
+    o.append("")
+    o.append("def readmeGrammarEn : Peg.Grammar where")
+    o.append("  rules := readmeRulesEn")
+    o.append("  classes := readmeClasses")
     o.append("")
     o.append("end Narsese.Gen")
     text = "\n".join(o) + "\n"
@@ -174,5 +195,7 @@ def main():
         print("gen_grammar: wrote", path)
     else:
         print("gen_grammar: unchanged", path)
+    if en_err:
+        print("gen_grammar: README.en.md block is not a well-formed pest grammar:", en_err)
 
 main()
